@@ -36,7 +36,7 @@ use std::{
 // ------------------------------------------------------------------------------------------------
 
 /// Every Rust allocation of the process goes through here (and on to malloc, i.e. to ASan's allocator in the
-/// sanitizer build). While an input is being executed (`IN_INPUT`), a single request above `ALLOC_LIMIT`
+/// sanitizer build). While an input is being executed (`IN_INPUT`), a single *granted* request above `ALLOC_LIMIT`
 /// bytes is a failure of the "never allocates far beyond the input size" half of the property: the signature
 /// is `C10:oom:<innermost SDK frame>`; known ones are counted and the allocation proceeds.
 pub struct LimitAlloc;
@@ -68,23 +68,29 @@ fn big_allocation(size: usize) {
 }
 
 unsafe impl GlobalAlloc for LimitAlloc {
+    // Only requests that the system allocator *grants* count: a fallible `try_reserve` of an absurd size
+    // that fails is handled gracefully by the caller (and an infallible one aborts the process, which is
+    // reported as a crash anyway).
     unsafe fn alloc(&self, l: Layout) -> *mut u8 {
-        if l.size() > ALLOC_LIMIT.load(Ordering::Relaxed) {
+        let p = System.alloc(l);
+        if l.size() > ALLOC_LIMIT.load(Ordering::Relaxed) && !p.is_null() {
             big_allocation(l.size());
         }
-        System.alloc(l)
+        p
     }
     unsafe fn alloc_zeroed(&self, l: Layout) -> *mut u8 {
-        if l.size() > ALLOC_LIMIT.load(Ordering::Relaxed) {
+        let p = System.alloc_zeroed(l);
+        if l.size() > ALLOC_LIMIT.load(Ordering::Relaxed) && !p.is_null() {
             big_allocation(l.size());
         }
-        System.alloc_zeroed(l)
+        p
     }
     unsafe fn realloc(&self, p: *mut u8, l: Layout, new_size: usize) -> *mut u8 {
-        if new_size > ALLOC_LIMIT.load(Ordering::Relaxed) {
+        let q = System.realloc(p, l, new_size);
+        if new_size > ALLOC_LIMIT.load(Ordering::Relaxed) && !q.is_null() {
             big_allocation(new_size);
         }
-        System.realloc(p, l, new_size)
+        q
     }
     unsafe fn dealloc(&self, p: *mut u8, l: Layout) {
         System.dealloc(p, l)
